@@ -1,5 +1,142 @@
 import DaliVerif.Proofs.MemSeq
 import DaliVerif.Gen.MemSeqTables
+/-!
+# C10 — memory writes store exactly the data or fail loudly; never silently
+
+`MemoryValue.write_raw` (model `writeRaw` in `Model/MemSeq.lean`) against the
+specification memory unit (`Spec/MemUnit.lean`) and, for the fault clause,
+against any responder.  Quantified over every location list, every byte
+string, every image / lock byte / register content, gear and device; no bounds.
+-/
 namespace DaliVerif.Props.C10
-theorem tables_ok : DaliVerif.Gen.MemSeqTables.banks.length = 9 := by decide
+open DaliVerif DaliVerif.DevMem DaliVerif.DevMem.Prog
+
+/-- **Refused before anything is sent.**  A value with a location that is not of a
+writable type (with a permitted length) gives `MemoryValueNotWriteable`, a wrong
+length `ValueError`; in both cases against any responder the exchange is empty. -/
+theorem write_refused_early (arg : AddrArg) (bank : Nat) (locs : List (Nat × MemType)) (raw : List Nat)
+    (s f i : Bool) (dev : Bool) (a : Nat) (hres : resolveAddr arg = .ok (dev, a))
+    (tr : List (Cmd × Resp)) (out : PyRes Unit) (h : Out (writeRaw arg bank locs raw s f i) tr out) :
+    ((if s then raw.length > locs.length else raw.length ≠ locs.length) →
+      tr = [] ∧ out = .error .ValueError) ∧
+    ((if s then raw.length ≤ locs.length else raw.length = locs.length) →
+      (∃ l ∈ locs, l.2.writeable = false) → tr = [] ∧ out = .error .MemoryValueNotWriteable) :=
+  ⟨fun hlen => writeRaw_refused arg bank locs raw s f i _ dev a hres
+      (writeChecks_length locs raw.length s f hlen) tr out h,
+   fun hlen hro => writeRaw_refused arg bank locs raw s f i _ dev a hres
+      (writeChecks_readonly locs raw.length s f hlen hro) tr out h⟩
+
+/-- **The write loop** against a conforming write-enabled unit (key lemma, DTR0
+tracking invariant as in C09): if every target cell can be written the loop
+completes with the memory holding the bytes and DTR0 where the code tracks it;
+otherwise `MemoryLocationNotWriteable`. -/
+theorem writeLoop_spec (dev : Bool) (pairs : List (Nat × Nat)) (u : MemUnit) (d : Option Nat)
+    (hdev : u.dev = dev) (hadv : u.advance = true) (hwe : u.we = true) (hb : u.dtr1 = u.bank.number)
+    (hlocs : ∀ p ∈ pairs, p.1 ≤ 255) (hnl : ∀ p ∈ pairs, u.bank.isLockCell p.1 = false)
+    (hd : ∀ x, d = some x → u.dtr0 = x) :
+    ((∀ p ∈ pairs, u.bank.canWrite u.unlockValue p.1 = true) →
+      ∃ c, (writeLoop dev false pairs d).run MemUnit.step u =
+        (.ok (finalD pairs d),
+          { u with clock := c, dtr0 := finalDtr0 pairs u.dtr0,
+                   bank := { u.bank with rw := writeAll pairs u.bank.rw } })) ∧
+    (¬ (∀ p ∈ pairs, u.bank.canWrite u.unlockValue p.1 = true) →
+      ((writeLoop dev false pairs d).run MemUnit.step u).1 = .error .MemoryLocationNotWriteable) :=
+  writeLoop_run dev pairs u d hdev hadv hwe hb hlocs hnl hd
+
+/-- **A successful write stored exactly the data** (no unlocking needed): for a
+conforming unit implementing the bank, any stale registers / write-enable
+state, if every target cell can be written the run returns normally and
+afterwards the writable memory is the old one overwritten with the bytes at
+the locations (`writeAll`: nothing else changed), lock byte, latch and
+environment untouched. -/
+theorem write_ok_spec (u : MemUnit) (dev : Bool) (a bank : Nat) (locs : List (Nat × MemType)) (raw : List Nat)
+    (allowShort : Bool) (hl : u.Listens dev a) (hadv : u.advance = true) (hb : u.bank.number = bank)
+    (hchk : writeChecks locs raw.length allowShort false = .ok false)
+    (hne : (locs.map (·.1)).zip raw ≠ [])
+    (hlocs : ∀ p ∈ (locs.map (·.1)).zip raw, p.1 ≤ 255)
+    (hnl : ∀ p ∈ (locs.map (·.1)).zip raw, u.bank.isLockCell p.1 = false)
+    (hcw : ∀ p ∈ (locs.map (·.1)).zip raw, u.bank.canWrite u.unlockValue p.1 = true) :
+    ∃ c, (writeRaw (if dev then .devShort a else .gearShort a) bank locs raw allowShort false false).run
+        MemUnit.step u =
+      (.ok (), { u with clock := c, dtr0 := finalDtr0 ((locs.map (·.1)).zip raw) u.dtr0, dtr1 := bank, we := true,
+                        bank := { u.bank with rw := writeAll ((locs.map (·.1)).zip raw) u.bank.rw } }) :=
+  writeRaw_ok u dev a bank locs raw allowShort hl hadv hb hchk hne hlocs hnl hcw
+
+/-- **… and a lockable bank is locked again**: with unlocking (NVM-RW-L locations
+or `force_unlock`) on a bank that has a lock byte: unlock (0x55), write,
+verify DTR0, lock (0xFF).  Afterwards: exactly the data, lock byte 0xFF, not
+latched, whatever the lock byte was before. -/
+theorem write_ok_spec_unlock (u : MemUnit) (dev : Bool) (a bank : Nat) (locs : List (Nat × MemType))
+    (raw : List Nat) (allowShort forceUnlock : Bool)
+    (hl : u.Listens dev a) (hadv : u.advance = true) (hb : u.bank.number = bank)
+    (hlock : u.bank.hasLock = true) (h2 : 2 ≤ u.bank.last)
+    (hchk : writeChecks locs raw.length allowShort forceUnlock = .ok true)
+    (hlocs : ∀ p ∈ (locs.map (·.1)).zip raw, p.1 ≤ 255)
+    (hnl : ∀ p ∈ (locs.map (·.1)).zip raw, u.bank.isLockCell p.1 = false)
+    (hcw : ∀ p ∈ (locs.map (·.1)).zip raw, u.bank.unlocked.canWrite u.unlockValue p.1 = true) :
+    ∃ c, (writeRaw (if dev then .devShort a else .gearShort a) bank locs raw allowShort forceUnlock false).run
+        MemUnit.step u =
+      (.ok (), { u with clock := c, dtr0 := 3, dtr1 := bank, we := true,
+                        bank := { u.bank with rw := writeAll ((locs.map (·.1)).zip raw) u.bank.rw,
+                                              lockByte := 0xFF, snap := none } }) :=
+  writeRaw_ok_unlock u dev a bank locs raw allowShort forceUnlock hl hadv hb hlock h2 hchk hlocs hnl hcw
+
+/-- what `writeAll` means: with distinct locations, each location holds its byte
+and every other cell is unchanged -/
+theorem writeAll_spec (pairs : List (Nat × Nat)) (m : Nat → Nat) :
+    (∀ x, (∀ p ∈ pairs, p.1 ≠ x) → writeAll pairs m x = m x) ∧
+    ((pairs.map (·.1)).Nodup → ∀ p ∈ pairs, writeAll pairs m p.1 = p.2) := by
+  induction pairs generalizing m with
+  | nil => exact ⟨fun _ _ => rfl, fun _ p hp => by cases hp⟩
+  | cons q qs ih =>
+    constructor
+    · intro x hx
+      rw [writeAll, (ih _).1 x (fun p hp => hx p (by simp [hp]))]
+      have := hx q (by simp)
+      simp [Ne.symm this]
+    · intro hnd p hp
+      simp only [List.map_cons, List.nodup_cons] at hnd
+      simp only [List.mem_cons] at hp
+      rcases hp with rfl | hp
+      · rw [writeAll, (ih _).1 p.1 (fun r hr heq => hnd.1 (by
+          simp only [List.mem_map]; exact ⟨r, hr, heq⟩))]
+        simp
+      · rw [writeAll]; exact (ih _).2 hnd.2 p hp
+
+/-- **A cell that cannot be written makes the write fail loudly** (shorter bank,
+unimplemented cell, cell read-only in the unit, bank still locked / unit that
+unlocks with another value): `MemoryLocationNotWriteable`, never success. -/
+theorem write_not_writable (u : MemUnit) (dev : Bool) (a bank : Nat) (locs : List (Nat × MemType))
+    (raw : List Nat) (allowShort : Bool)
+    (hl : u.Listens dev a) (hadv : u.advance = true) (hb : u.bank.number = bank)
+    (hchk : writeChecks locs raw.length allowShort false = .ok false)
+    (hlocs : ∀ p ∈ (locs.map (·.1)).zip raw, p.1 ≤ 255)
+    (hnl : ∀ p ∈ (locs.map (·.1)).zip raw, u.bank.isLockCell p.1 = false)
+    (hcw : ¬ ∀ p ∈ (locs.map (·.1)).zip raw, u.bank.canWrite u.unlockValue p.1 = true) :
+    ((writeRaw (if dev then .devShort a else .gearShort a) bank locs raw allowShort false false).run
+        MemUnit.step u).1 = .error .MemoryLocationNotWriteable :=
+  writeRaw_not_writable u dev a bank locs raw allowShort hl hadv hb hchk hlocs hnl hcw
+
+/-- **Faults are loud** — against *any* responder (NO, another byte echoed, framing
+error, wrong DTR0 read-back, at any step), feedback not ignored: a normal return
+implies that every WRITE MEMORY LOCATION was echoed with exactly its own value
+and that DTR0 was read back cleanly; every other outcome is one of the
+documented exceptions.  A failed write is never reported as success. -/
+theorem write_fault_loud (arg : AddrArg) (bank : Nat) (locs : List (Nat × MemType)) (raw : List Nat)
+    (s f : Bool) (tr : List (Cmd × Resp)) (out : PyRes Unit)
+    (h : Out (writeRaw arg bank locs raw s f false) tr out) :
+    (out = .ok () ∧ (∀ cr ∈ tr, ∀ d v, cr.1 = Cmd.writeMemoryLocation d v → cr.2 = Resp.byte v) ∧
+      ∃ dev a b, (Cmd.queryContentDTR0 dev a, Resp.byte b) ∈ tr) ∨
+    (∃ e, out = .error e ∧ (e = .TypeError ∨ e = .ValueError ∨ e = .MemoryValueNotWriteable ∨
+      e = .MemoryLocationNotWriteable ∨ e = .ResponseError ∨ e = .MemoryWriteFailure)) :=
+  writeRaw_faults arg bank locs raw s f tr out h
+
+/-- the regenerated tables satisfy what the theorems ask of a value: locations
+fit a byte and are pairwise distinct; 27 values are writable -/
+theorem tables_ok :
+    DaliVerif.Gen.MemSeqTables.values.all (fun v =>
+      v.locs.all (fun l => decide (l.1 ≤ 254)) && decide (v.addrs.Nodup)) = true ∧
+    (DaliVerif.Gen.MemSeqTables.values.filter (fun v => v.locs.all (·.2.writeable))).length = 27 := by
+  decide +kernel
+
 end DaliVerif.Props.C10
